@@ -25,6 +25,7 @@ public:
         bool operator!=(const iterator& o) const { return pos != o.pos; }
         iterator& operator+=(size_t k) { adv(long(k)); return *this; }
         iterator operator+(size_t k) const { iterator i(*this); i.adv(long(k)); return i; }
+        long operator-(const iterator& o) const { return pos - o.pos; }
         void adv(long k) { pos += k; if (pos > n || pos < 0) g_f.formed_out++; }
     };
     iterator begin() const { return iterator{b, 0, n}; }
